@@ -4,6 +4,7 @@
 #include "pbt.hpp"
 #include <nstd/HashMap.hpp>
 #include <nstd/HashSet.hpp>
+#include <nstd/PoolMap.hpp>
 #include <nstd/String.hpp>
 
 const char* pbt_property = "C02";
@@ -22,31 +23,40 @@ template <class K, class MK, class Make>
 void runMap(const Case& cs, Ctx& ctx, long cap, Make make, const char* tname) {
   HashMap<K, long>* h = cap < 0 ? new HashMap<K, long>() : new HashMap<K, long>((usize)cap);
   HashSet<K>* hs = cap < 0 ? new HashSet<K>() : new HashSet<K>((usize)cap);
-  Ref<K, MK> m, ms;
+  // PoolMap with a plain value type: append(key) creates the entry with a value-initialised value (0), an existing entry is left
+  // untouched; removed entries are recycled, so a fresh entry must not show its predecessor's value
+  PoolMap<K, unsigned short>* pm = cap < 0 ? new PoolMap<K, unsigned short>() : new PoolMap<K, unsigned short>((usize)cap);
+  Ref<K, MK> m, ms, mp;
   long idx = 0;
   for (const Op& op : cs.ops) {
     ctx.opIndex = idx++;
     long kraw = op.a[0]; long val = op.a[1];
     MK mk; K key = make(kraw, mk);
     const std::string& nm = op.name;
-    if (nm == "put") { h->append(key, val); int p = m.find(mk); if (p >= 0) m.v[(size_t)p].second = val; else m.v.emplace_back(mk, val); hs->append(key); if (ms.find(mk) < 0) ms.v.emplace_back(mk, 0); }
-    else if (nm == "del") { h->remove(key); int p = m.find(mk); if (p >= 0) m.v.erase(m.v.begin() + p); hs->remove(key); p = ms.find(mk); if (p >= 0) ms.v.erase(ms.v.begin() + p); }
+    if (nm == "put") {
+      { int p = mp.find(mk); unsigned short& slot = pm->append(key); if (p < 0) { if (slot != 0) { char d[200]; snprintf(d, sizeof d, "%s: PoolMap::append(key) of a new key returned an entry whose value is %ld, not the value-initialised 0", tname, (long)slot); ctx.fail("mismatch:poolmap-fresh-value", d); } slot = (unsigned short)val; mp.v.emplace_back(mk, val); } else if (slot != mp.v[(size_t)p].second) ctx.fail("mismatch:poolmap-value", tname); }
+      h->append(key, val); int p = m.find(mk); if (p >= 0) m.v[(size_t)p].second = val; else m.v.emplace_back(mk, val); hs->append(key); if (ms.find(mk) < 0) ms.v.emplace_back(mk, 0); }
+    else if (nm == "del") { { pm->remove(key); int p = mp.find(mk); if (p >= 0) mp.v.erase(mp.v.begin() + p); }
+      h->remove(key); int p = m.find(mk); if (p >= 0) m.v.erase(m.v.begin() + p); hs->remove(key); p = ms.find(mk); if (p >= 0) ms.v.erase(ms.v.begin() + p); }
     else if (nm == "get") {
       typename HashMap<K, long>::Iterator it = h->find(key); int p = m.find(mk);
       if ((it == h->end()) != (p < 0)) { char d[160]; snprintf(d, sizeof d, "%s: HashMap::find disagrees with the reference for raw key %ld", tname, kraw); ctx.fail("mismatch:find", d); }
       if (p >= 0 && *it != m.v[(size_t)p].second) ctx.fail("mismatch:value", tname);
       if (hs->contains(key) != (ms.find(mk) >= 0)) ctx.fail("mismatch:set-contains", tname);
+      { typename PoolMap<K, unsigned short>::Iterator pi = pm->find(key); int pp = mp.find(mk); if ((pi == pm->end()) != (pp < 0)) ctx.fail("mismatch:poolmap-find", tname); if (pp >= 0 && *pi != mp.v[(size_t)pp].second) ctx.fail("mismatch:poolmap-value", tname); }
     }
-    else if (nm == "clear") { h->clear(); hs->clear(); m.v.clear(); ms.v.clear(); }
+    else if (nm == "clear") { h->clear(); hs->clear(); pm->clear(); m.v.clear(); ms.v.clear(); mp.v.clear(); }
     else if (nm == "copy") { HashMap<K, long> c2(*h); if (!(c2 == *h)) ctx.fail("mismatch:copy-equal", tname); *h = c2; HashSet<K> s2(*hs); if (s2 != *hs) ctx.fail("mismatch:set-copy-equal", tname); }
     else { ctx.count("unknown_op"); continue; }
+    if (pm->size() != mp.v.size()) ctx.fail("mismatch:poolmap-size", tname);
+    { size_t q = 0; for (typename PoolMap<K, unsigned short>::Iterator it = pm->begin(); it != pm->end(); ++it, ++q) if (q >= mp.v.size() || *it != mp.v[q].second) ctx.fail("mismatch:poolmap-iteration", tname); }
     if (h->size() != m.v.size() || hs->size() != ms.v.size()) { char d[160]; snprintf(d, sizeof d, "%s after %s: sizes %zu/%zu, reference %zu/%zu", tname, nm.c_str(), (size_t)h->size(), (size_t)hs->size(), m.v.size(), ms.v.size()); ctx.fail("mismatch:size", d); }
     // every reference key is found, in insertion order
     size_t i = 0; for (typename HashMap<K, long>::Iterator it = h->begin(); it != h->end(); ++it, ++i) { MK tmp; (void)tmp; if (i >= m.v.size() || *it != m.v[i].second) ctx.fail("mismatch:iteration", tname); }
     for (auto& e : m.v) { MK dummy; K k2 = make(-1, dummy, &e.first); if (h->find(k2) == h->end()) { char d[160]; snprintf(d, sizeof d, "%s after %s: a key of the reference is not found", tname, nm.c_str()); ctx.fail("mismatch:lookup-lost", d); } }
     if (m.v.size() >= 6) ctx.label("table>=6");
   }
-  delete h; delete hs;
+  delete h; delete hs; delete pm;
 }
 }  // namespace
 
@@ -67,6 +77,11 @@ void pbt_run(const Case& cs, Ctx& ctx) {
     case 0: ctx.label("key_int"); runMap<int, long>(cs, ctx, cap, [](long raw, long& mk, const long* from = nullptr) { mk = from ? *from : (raw % 3 == 0 ? raw * 500 : raw) - 5; return (int)mk; }, "int"); break;
     case 1: ctx.label("key_int64"); runMap<int64, long>(cs, ctx, cap, [](long raw, long& mk, const long* from = nullptr) { mk = from ? *from : raw * 4294967296L + raw; return (int64)mk; }, "int64"); break;
     case 2: ctx.label("key_pointer"); runMap<const void*, long>(cs, ctx, cap, [](long raw, long& mk, const long* from = nullptr) { mk = from ? *from : (raw % 64); return (const void*)(pool + mk); }, "const void*"); break;
-    default: ctx.label("key_String"); runMap<String, std::string>(cs, ctx, cap, [](long raw, std::string& mk, const std::string* from = nullptr) { mk = from ? *from : std::string(WORDS[((raw % NW) + NW) % NW]); return String(mk.data(), mk.size()); }, "String"); break;
+    default: ctx.label("key_String"); runMap<String, std::string>(cs, ctx, cap, [](long raw, std::string& mk, const std::string* from = nullptr) { mk = from ? *from : std::string(WORDS[((raw % NW) + NW) % NW]); 
+      // one key in three is a view attached to the word inside a larger buffer (a non-zero byte in front of it, the terminator behind it): equal keys must
+      // hash and compare alike whatever their representation
+      static char views[NW][16]; static bool init = false; if (!init) { init = true; for (int w = 0; w < NW; ++w) { views[w][0] = 'Z'; strcpy(views[w] + 1, WORDS[w]); } }
+      if (!from && (raw % 3 == 1 || raw >= NW)) { int w = (int)(((raw % NW) + NW) % NW); String v; v.attach(views[w] + 1, strlen(WORDS[w])); return v; }
+      return String(mk.data(), mk.size()); }, "String"); break;
   }
 }
